@@ -127,7 +127,10 @@ def gen(rng, tier, i):
         elif oc == "up-http-403":
             code = rng.choice([403, 407, 503, 500, 302, 199])
             body = b"x" * rng.choice([0, 5, 300])
-            srv["default_ops"] = [op("recv_http_head", label="upreq"), send(b"HTTP/1.1 %d Nope\r\nContent-Length: %d\r\n\r\n" % (code, len(body)) + body)] + tail
+            # the refusal may be verbose (the proxy quotes it in its own error page): long reason phrase, many and long headers
+            reason = rng.choice([b"Nope", b"Nope", b"No " * rng.choice([50, 400]), "Verbot\u00e9n \u20ac".encode()])
+            extra = b"".join(b"X-Why-%d: %s\r\n" % (n, b"because " * rng.choice([1, 10, 60])) for n in range(rng.choice([0, 0, 3, 10, 40])))
+            srv["default_ops"] = [op("recv_http_head", label="upreq"), send(b"HTTP/1.1 %d %s\r\n%sContent-Length: %d\r\n\r\n" % (code, reason, extra, len(body)) + body)] + tail
         elif oc == "up-http-garbage":
             junk = rng.choice([b"\x00\x01\x02garbage\r\n\r\n", b"HTTP/1.1 abc OK\r\n\r\n", b"200 OK\r\n\r\n", b"HTTP/1.1 200\r\n\r\n", b"\r\n\r\n", b"HTTP/1.1 200 OK\r\nbadheader\r\n\r\n"])
             srv["default_ops"] = [op("recv_http_head", label="upreq"), send(junk)] + tail
